@@ -399,7 +399,11 @@ func (w *World) cellsAddr(fr *frame, pos token.Pos, cells []value, idx value, T 
 		return &cells[0]
 	}
 	if len(cells) > symIndexMax {
-		return &cells[w.concretize(t, symIndexMax)]
+		if ub, ok := termUB(t, 0); ok && ub < symIndexMax {
+			cells = cells[:ub+1] // narrow index into a large table: only the reachable prefix is a candidate
+		} else {
+			return &cells[w.concretize(t, symIndexMax)]
+		}
 	}
 	if len(cells) <= w.h.ConcIndexMax {
 		// check knob "concretize_index_max": fork over the index instead of building a mux term
